@@ -11,6 +11,10 @@ import time
 import traceback
 
 ROOT = os.path.dirname(os.path.dirname(os.path.abspath(__file__)))
+# runs against a scratch tree (seeded changes) must not overwrite the evidence of the real tree
+OUT = ROOT
+if os.environ.get("VERIF_NO_EVIDENCE") or os.path.realpath(os.environ.get("VERIF_REPO", "/repo")) != "/repo":
+    OUT = os.path.join("/tmp", "verif_scratch_out", str(os.getpid()))
 
 
 def load_known(pid: str) -> dict:
@@ -27,7 +31,7 @@ def load_known(pid: str) -> dict:
 
 
 def write_replay(pid: str, rec: dict) -> str:
-    d = os.path.join(ROOT, "replays", pid)
+    d = os.path.join(OUT, "replays", pid)
     os.makedirs(d, exist_ok=True)
     body = {k: v for k, v in rec.items() if not k.startswith("_")}
     blob = json.dumps(body, sort_keys=True, indent=1, ensure_ascii=True)
@@ -116,8 +120,8 @@ def main(argv=None) -> int:
         "jobs": core.JOBS,
         "notes": R.notes,
     }
-    os.makedirs(os.path.join(ROOT, "evidence"), exist_ok=True)
-    evpath = os.path.join(ROOT, "evidence", f"{pid}.json")
+    os.makedirs(os.path.join(OUT, "evidence"), exist_ok=True)
+    evpath = os.path.join(OUT, "evidence", f"{pid}.json")
     with open(evpath, "w") as f:
         json.dump(ev, f, indent=1, sort_keys=True, ensure_ascii=True)
         f.write("\n")
